@@ -5,6 +5,7 @@ import ast
 from typing import Dict, List, Optional, Set, Tuple
 
 from ..model import AnalysisError, Func, const_str, dotted, kwarg, src, walk_no_defs
+from ..dataflow import node_exprs
 from ..util import call_tail, enclosing, find_calls, no_exc, node_calls
 
 EXPLANATION = (
@@ -447,9 +448,80 @@ def rule_tier(ctx) -> None:
     cs = [x for x in walk_no_defs(fn.node) if isinstance(x, ast.Call) and call_tail(x) == "sort" and src(x.func.value) == "cluster_scores"]
     parts = [src(e) for e in cs[0].keywords[0].value.body.elts] if cs and isinstance(kwarg(cs[0], "key"), ast.Lambda) and isinstance(cs[0].keywords[0].value.body, ast.Tuple) else []
     ctx.check(len(parts) == 2 and parts[0].startswith("-"), "C11.TIER", f"{fn.qual}/cluster-order", fn.loc(), f"clusters ordered by ({', '.join(parts)})", f"cluster order key is {parts}")
-    fr_fn = ctx.func(IDX + ":InMemoryIndex._filter_recent")
-    okc = any(isinstance(x, ast.Compare) and isinstance(x.ops[0], ast.GtE) and "cutoff" in src(x.comparators[0]) for x in walk_no_defs(fr_fn.node))
-    ctx.check(okc, "C11.TIER", f"{fr_fn.qual}/cutoff", fr_fn.loc(), "recent = ts >= now - recent_days", "the recency test is not ts >= cutoff")
+    _window_sites(ctx)
+
+
+def _drops_time_of_day(e: ast.AST) -> bool:
+    """idioms that truncate a datetime to its date: .replace(hour=.. / minute=.. / second=.. / microsecond=..), .date(),
+    datetime.combine(..), a constructor fed .year / .month / .day of another value, .toordinal() / fromordinal."""
+    for x in ast.walk(e):
+        if isinstance(x, ast.Call):
+            t = call_tail(x)
+            if t == "replace" and any(k.arg in ("hour", "minute", "second", "microsecond") for k in x.keywords):
+                return True
+            if t in ("date", "combine", "toordinal", "fromordinal", "floor", "normalize") and isinstance(x.func, ast.Attribute):
+                return True
+            if t in ("datetime", "date") and any(isinstance(y, ast.Attribute) and y.attr in ("year", "month", "day") for a in x.args for y in ast.walk(a)):
+                return True
+    return False
+
+
+def _window_sites(ctx) -> None:
+    """the exact tier's recency window is `ts >= now - recent_days`, a rolling window from the turn's clock: in every index
+    implementation the bound an episode's time is compared with is the clock value minus timedelta(days=recent_days), nothing
+    else - not rounded to a calendar day, not shifted.  Roles: the bound is the compared name whose definition holds a
+    timedelta; the clock value is a parameter or the parsed `now` hint (falling back to the process clock)."""
+    n_sites = 0
+    for mn in (IDX, LANCE):
+        if mn not in ctx.prog.modules:
+            continue
+        for fn in sorted(ctx.prog.module(mn).funcs.values(), key=lambda f: f.qual):
+            if not any(isinstance(x, ast.Call) and call_tail(x) == "timedelta" for x in ast.walk(fn.node)):
+                continue
+            cfg = ctx.cfg(fn)
+            rd = ctx.rd(fn)
+            for n in cfg.nodes:
+                for e in node_exprs(n):
+                    for x in ast.walk(e):
+                        if not (isinstance(x, ast.Compare) and len(x.ops) == 1 and isinstance(x.ops[0], (ast.GtE, ast.Gt, ast.LtE, ast.Lt))):
+                            continue
+                        for side, other in ((x.comparators[0], x.left), (x.left, x.comparators[0])):
+                            if not isinstance(side, ast.Name):
+                                continue
+                            ds = [d for d in rd.reaching(side.id, n) if d.value is not None]
+                            if not ds or not all(any(isinstance(c, ast.Call) and call_tail(c) == "timedelta" for c in ast.walk(rd.inline(d.value, d.node, depth=2))) for d in ds):
+                                continue
+                            n_sites += 1
+                            ctx.analysed_funcs.add(fn.qual)
+                            key = ctx.okey(f"{fn.qual}/window-is-clock-minus-days")
+                            bad = None
+                            if not (isinstance(x.ops[0], ast.GtE) and side is x.comparators[0] or isinstance(x.ops[0], ast.LtE) and side is x.left):
+                                bad = f"the test `{src(x)}` is not `time >= bound`"
+                            for d in ds:
+                                v = d.value
+                                if isinstance(v, ast.BinOp) and isinstance(v.left, ast.Name):
+                                    v = ast.BinOp(left=v.left, op=v.op, right=rd.inline(v.right, d.node))
+                                if isinstance(v, ast.BinOp) and isinstance(v.op, ast.Add) and isinstance(v.right, ast.UnaryOp) and isinstance(v.right.op, ast.USub):
+                                    v = ast.BinOp(left=v.left, op=ast.Sub(), right=v.right.operand)
+                                if not (isinstance(v, ast.BinOp) and isinstance(v.op, ast.Sub) and isinstance(v.left, ast.Name) and isinstance(v.right, ast.Call) and call_tail(v.right) == "timedelta") or _drops_time_of_day(v):
+                                    bad = bad or f"the bound is `{src(v)[:80]}`, not the clock value minus timedelta(days=recent_days): a bound moved to a day boundary (or otherwise shifted) lets episodes older than the window into the exact tier"
+                                    continue
+                                td = v.right
+                                dv = kwarg(td, "days") or (td.args[0] if td.args else None)
+                                if dv is None or len(td.args) + len(td.keywords) != 1:
+                                    bad = bad or f"the window length `{src(td)}` is not timedelta(days=recent_days)"
+                                    continue
+                                core = dv
+                                while isinstance(core, ast.Call) and call_tail(core) in ("int", "float") and len(core.args) == 1:
+                                    core = core.args[0]
+                                if any(isinstance(z, (ast.BinOp, ast.UnaryOp)) for z in ast.walk(core)):
+                                    bad = bad or f"the window length `{src(dv)}` is not the configured recent_days as it is"
+                                # the clock value keeps its time of day: no local definition cuts it to a calendar day
+                                for cd in rd.reaching(v.left.id, d.node):
+                                    if cd.value is not None and _drops_time_of_day(cd.value):
+                                        bad = bad or f"the clock value `{v.left.id}` is cut to a calendar day before the window is taken (`{src(cd.value)[:60]}`): the window no longer rolls from the turn's clock"
+                            ctx.check(bad is None, "C11.TIER", key, fn.loc(x), "the recency bound is the clock value minus timedelta(days=recent_days), compared as time >= bound", bad or "")
+    ctx.floor("C11.TIER", "recency-window comparisons (in-memory + Lance indexes)", n_sites, 3)
 
 
 def rule_rank(ctx) -> None:
